@@ -1926,10 +1926,10 @@ func (w *vpWorld) generate(o vpGenOpts) {
 			reg := w.regs[rng.Intn(len(w.regs))]
 			w.cbeh[[2]int{reg.idx + 1, 1 + rng.Intn(3)}] = true
 		}
-		// a transient result-object constructor that leaves one field nil at some invocation (for scoped and
-		// singleton registrations this is the recorded finding D15 and is not generated)
+		// a result-object constructor that leaves one field nil at some invocation (any lifetime: D15 is repaired,
+		// the identity of the nil field is remembered as constructed-without-value)
 		for _, reg := range w.regs {
-			if reg.form == "ro" && reg.life == Transient && len(reg.outs) >= 2 && rng.Intn(2) == 0 {
+			if reg.form == "ro" && len(reg.outs) >= 2 && rng.Intn(2) == 0 {
 				w.nbeh[[2]int{reg.idx + 1, 1 + rng.Intn(3)}] = rng.Intn(len(reg.outs))
 			}
 		}
